@@ -737,15 +737,15 @@ Fixpoint ref_addrs (e : env) (args : list arg) : list nat :=
   | AVal _ :: r => ref_addrs e r
   end.
 
-Lemma bind_params_copy_spec : forall mt f ps i args e ce X st ce' st',
-  bind_params false mt f i ps args e ce st = Ok (ce', st') -> Sep X st ->
+Lemma bind_params_copy_spec : forall mt all f ps i args e ce X st ce' st',
+  bind_params false mt all f i ps args e ce st = Ok (ce', st') -> Sep X st ->
   Sep X st' /\ True /\ length (vars st) <= length (vars st') /\ out st' = out st /\
   (forall b, b < length (vars st) -> keeps st st' b) /\
   (forall a, In a (map snd ce') ->
      In a (map snd ce) \/ In a (ref_addrs e args) \/ (length (vars st) <= a < length (vars st'))) /\
   incl (map snd ce) (map snd ce').
 Proof.
-  intros mt f ps. induction ps as [|p ps IH]; intros i args e ce X st ce' st' H HS;
+  intros mt all f ps. induction ps as [|p ps IH]; intros i args e ce X st ce' st' H HS;
     destruct args as [|a args]; cbn in H; try discriminate H.
   - inv H. split; [auto|split; [auto|split; [lia|split; [auto|split; [intros; apply keeps_refl|split; [auto|apply incl_refl]]]]]].
   - destruct (pref p) eqn:Ep; destruct a as [ex|x]; try discriminate H.
@@ -826,20 +826,21 @@ Lemma do_call_copy_spec : forall mt funs genv ex e dst f args X st st',
      caller can see except the destination *)
   exists fd ce st1 st2,
     nth_error funs f = Some fd /\
-    bind_params false mt f 0 (fparams fd) args e genv st = Ok (ce, st1) /\
-    ex ce (fbody fd) (set_tmps st1 []) = Ok st2 /\
+    bind_params false mt args f 0 (fparams fd) args e genv st = Ok (ce, st1) /\
+    ex ce (fbody fd) (set_fbase (set_tmps st1 []) (length (vars st))) = Ok st2 /\
     forall b, b < length (vars st) -> (match dst with Some x => lookup e x <> Some b | None => True end) -> keeps st2 st' b.
 Proof.
   intros mt funs genv ex e dst f args X st st' Hex H HS Ht He. unfold do_call in H.
   destruct (nth_error funs f) as [fd|] eqn:Efd; [|discriminate H].
   bind_as H r Hbind H. destruct r as [ce st1].
-  destruct (bind_params_copy_spec _ _ _ _ _ _ _ _ _ _ _ Hbind HS) as (B1 & _ & B3 & B4 & B5 & B6 & B7).
+  destruct (bind_params_copy_spec _ _ _ _ _ _ _ _ _ _ _ _ Hbind HS) as (B1 & _ & B3 & B4 & B5 & B6 & B7).
   bind_as H st2 Hbody H.
   (* the callee's body *)
   set (saved := tmps st1) in *.
-  assert (S1' : Sep (saved ++ X) (set_tmps st1 [])).
-  { apply (Sep_perm X (saved ++ X) st1 (set_tmps st1 [])); auto. }
-  assert (Hce : env_ok genv ce (set_tmps st1 [])).
+  set (st1' := set_fbase (set_tmps st1 []) (length (vars st))) in *.
+  assert (S1' : Sep (saved ++ X) st1').
+  { apply (Sep_perm X (saved ++ X) st1 st1'); auto. }
+  assert (Hce : env_ok genv ce st1').
   { destruct He as [He1 He2]. split; [|exact B7]. cbn. intros ad Ha. apply B6 in Ha.
     destruct Ha as [Ha|[Ha|Ha]]; [apply He2 in Ha; apply He1 in Ha; lia| |lia].
     assert (Hin : In ad (map snd e)).
@@ -867,9 +868,13 @@ Proof.
         eapply keeps_trans; [eapply heap_keeps; eauto | apply T5].
     - inv Hret. exists []. split; [auto|split; [auto|split; [lia|split; [intros; apply keeps_refl|auto]]]]. }
   destruct R as (Y & R1 & R2 & R3 & R4 & R5).
-  bind_as H st7 Hexit H. unfold exit_frame in Hexit.
+  bind_as H st7o Hexit H. unfold exit_frame in Hexit.
+  set (st7 := set_fbase st7o (fbase st)) in *.
   assert (Hbase : length (vars st) + (length (vars st6) - length (vars st)) = length (vars st6)) by (cbn in *; lia).
-  destruct (exit_from_copy_spec _ _ _ _ _ Hexit R1 Hbase) as (F1 & F2 & F3 & F4 & F5).
+  destruct (exit_from_copy_spec _ _ _ _ _ Hexit R1 Hbase) as (F1o & F2 & F3 & F4 & F5o).
+  assert (F1 : Sep (Y ++ saved ++ X) st7) by (apply (Sep_perm (Y ++ saved ++ X) (Y ++ saved ++ X) st7o st7); auto).
+  assert (F5 : forall b, b < length (vars st) -> keeps st6 st7 b) by (intros b Hb'; destruct (F5o b Hb'); split; auto).
+  change (tmps st7o) with (tmps st7) in F2. change (out st7o) with (out st7) in F3. change (vars st7o) with (vars st7) in F4.
   (* back in the caller *)
   unfold call_finish in H.
   set (st8 := set_tmps st7 saved) in *.
@@ -886,7 +891,7 @@ Proof.
   assert (K9 : forall b, b < length (vars st) -> ~ In b (ref_addrs e args) -> ~ In b (map snd genv) -> keeps st st9 b).
   { intros b Hb' Hn1 Hn2.
     eapply keeps_trans; [apply B5; auto|].
-    eapply keeps_trans with (s2 := set_tmps st1 []); [split; auto|].
+    eapply keeps_trans with (s2 := st1'); [split; auto|].
     eapply keeps_trans; [apply C4; [cbn; lia|]|].
     { intros Hin. apply B6 in Hin. destruct Hin as [Hin|[Hin|Hin]]; auto. lia. }
     eapply keeps_trans; [apply R4; lia|].
